@@ -21,6 +21,14 @@ del lay['Key_q_AltGr']                       # missing entry
 lay['Num5'] = ''                             # empty number-pad value
 del lay['Num6']                              # missing number-pad entry
 lay['Key_j_AltGr'] = 'াঁ'          # sign-first two-code-point value (aa-kar + chandrabindu)
+# regex-special ASCII characters a layout may emit (Probhat has none of them): the typed word is pasted into a regex
+lay['Key_BackSlash_AltGr'] = '\\'
+lay['Key_BracketLeft_AltGr'] = '['
+lay['Key_BraceLeft_AltGr'] = '{'
+lay['Key_Bar_AltGr'] = '|'
+lay['Key_Asterisk_AltGr'] = '*'
+lay['Key_Circum_AltGr'] = '$'
+lay['Key_Greater_AltGr'] = '.'
 write('layout_synth.json', lay, 'verif synthetic layout (Probhat + multi-codepoint / empty / missing entries)')
 
 # layout_karfirst: vowel-sign-first multi-code-point values (C04 only)
